@@ -130,7 +130,8 @@ CHECKS["C07"] = dict(
          "are random in the call; toggling a block of one object leaves every tree not containing that object untouched and "
          "changes neither random flags nor callbacks; of any toggle sequence only the last counts; switching back restores the "
          "object. Tie: 2-3 instances of one class with constraint_mode / rand_mode histories; the hard terms and outcome of every "
-         "call are compared with the model's enabled blocks of that very instance.",
+         "call are compared with the model's enabled blocks of that very instance."
+         " A list stream toggles the block that holds the foreach / aggregate statements while the lists grow (the expansion must be that of the list at each call).",
     note=SOLVER_NOTE + "Procedural per-instance toggles; most-derived selection across inheritance is not generated here.",
     technique="Coq proof over object-tree model + per-call term-level correspondence across several live instances",
     ref="DESIGN.md §3 C07")
@@ -157,7 +158,8 @@ CHECKS["C05"] = dict(
          "hard constraints and the accepted ones (maximality), already with those of higher priority (later / inline wins), decisions "
          "are independent of lower priorities; a nested soft constraint carries exactly its enclosing conditions and its term is true "
          "iff the guards do not all hold or it does. Tie per call: the batch of soft terms handed to the solver equals the model's "
-         "soft terms in priority order; the returned values are checked for priority-greedy maximality by enumeration in Coq.",
+         "soft terms in priority order; the returned values are checked for priority-greedy maximality by enumeration in Coq."
+         " A second stream puts soft constraints next to list constraints (scalars and constant-index elements related in both operand orders, so that the rand sets they sit in are merged).",
     note=SOLVER_NOTE + "Guards of nested soft constraints are relational (1-bit) conditions.",
     technique="Coq proof over abstract satisfiability test + per-call term/order correspondence and enumeration oracle in Coq",
     ref="DESIGN.md §3 C05")
@@ -170,9 +172,11 @@ CHECKS["C04"] = dict(
          "of the first `size` elements. Tie per call: the check writes each scenario in these forms over exactly the elements the "
          "list exposes after the call, Coq expands them, compares the expansion with the solver transcript (fixed-size lists) and "
          "judges values, frame and outcome by enumeration; len() / size / iteration / indexing / element models are compared after "
-         "every call and every append / clear / assignment against Python-level bookkeeping.",
-    note=SOLVER_NOTE + "Scalar lists only (lists of objects and unique_vec are not generated). For random-size lists there is no "
-         "term-level tie (element models are created during the call); their values, sizes and outcomes are judged by the oracle.",
+         "every call and every append / clear / assignment against Python-level bookkeeping."
+         " Added later: constant-index elements outside foreach, product, unique_vec, unique argument orders over several lists, free-standing calls that refer to an element they do not pass, clear-after-call histories; a failed call on a random-size list is examined for every size 0..5 (satisfiable for some size => violation) and must leave a list whose size was never solved for unchanged; lists of objects: identity of the exposed objects after clear / append.",
+    note=SOLVER_NOTE + "For random-size lists there is no term-level tie (element models are created during the call); their "
+         "values, sizes and outcomes are judged by the oracle. The product of a random-size list is not generated (the code's "
+         "'product of no elements' depends on when the expression was built).",
     technique="Coq proof over list-expansion model + per-call differential correspondence (transcript and enumeration oracle in Coq)",
     ref="DESIGN.md §3 C04")
 CHECKS["C06"] = dict(
@@ -185,7 +189,8 @@ CHECKS["C06"] = dict(
          "several live instances per class (two sub-objects of one class per root, 1-3 roots created before / after), inline sets "
          "that change and conflict from call to call, references through root and sub-objects; the solver transcript is compared "
          "with the model's terms, where every reference is expanded to the block of the object it is written through over that "
-         "object's fields; values, frame and outcome are judged by enumeration in Coq.",
+         "object's fields; values, frame and outcome are judged by enumeration in Coq."
+         " Dynamic blocks of 1-4 statements, a dynamic block referring to a later-named one, and a list stream with foreach statements inside a dynamic block referenced from inline blocks while the lists grow.",
     note=SOLVER_NOTE + "Dynamic blocks hold relational expression statements; references inside if / implies bodies and through "
          "list elements are not generated. Which object a path denotes is the harness's reading of the scenario (the specification).",
     technique="Coq proof over dynamic-reference / scope-stack model + per-call differential correspondence (transcript and enumeration oracle in Coq)",
@@ -203,7 +208,8 @@ CHECKS["C09"] = dict(
          "global generator, built around snapshot -> calls -> unrelated operations -> restore -> same calls) runs in 4 fresh "
          "processes (PYTHONHASHSEED 0 / 1 / 777 / 31337, unrelated randomizations + allocation churn + gc, debug / "
          "solve_fail_debug / VSC_CAPTURE_SRCINFO); observations must be identical, values must be equal wherever the model's "
-         "state terms are equal, and no operation may draw from Python's global generator except to derive a default state.",
+         "state terms are equal, and no operation may draw from Python's global generator except to derive a default state."
+         " Explicit states are also made from (number, name) pairs.",
     note="Objects of one history are instances of one synthesized class (scalars, enums, sub-objects, fixed- and random-size "
          "lists) and are not modified between calls other than by randomization.",
     technique="Coq proof over heap model of random states + multi-process differential correspondence (state-term equalities computed in Coq)",
@@ -222,7 +228,8 @@ CHECKS["C16"] = dict(
          "every call ends are compared with the model. Oracles on the real objects: no field keeps a solver variable, no "
          "temporary rewrite of the constraint tree stays installed, statement counts stay as constructed, and a scripted "
          "continuation (new class with solve_order, new and re-seeded objects) equals that of a twin process in which the "
-         "failed calls never happened.",
+         "failed calls never happened."
+         " The classes also hold a random-size list (after every call a list holds exactly as many element models as its size says) and some calls are preceded by a covergroup whose construction is rejected.",
     note="Covergroup / coverpoint construction and faults inside the library other than SolveFailure are not modelled.",
     technique="Coq proof over scope-stack model of the API entry points + fault-injection differential correspondence with a pristine-twin oracle",
     ref="DESIGN.md §3 C16")
@@ -236,7 +243,8 @@ CHECKS["C14"] = dict(
          "Ties: (1) for fields constrained against constants the recorded inferred domain is compared, as a set of values over "
          "the whole type, with the model's and with the constraints' solutions; (2) for general programs (relations between "
          "fields, arithmetic, if / implies, object trees) the inference is not modelled: per call the recorded bound map must "
-         "contain every solution of the hard constraints (enumerated in Coq) and an unmentioned field's whole type.",
+         "contain every solution of the hard constraints (enumerated in Coq) and an unmentioned field's whole type."
+         " A third of the scenarios make free-standing calls, some relating two passed fields through an expression.",
     note=SOLVER_NOTE + "Which completion Boolector picks when several feasible values share the pinned bits (multi-range domains) "
          "is a runtime behaviour outside the model. Known finding bounds.python_int_semantics.",
     technique="Coq proofs (bounds inference against constants, trimming and swizzle primitives) + per-field domain correspondence + per-call enumeration oracle on the recorded inferred domains",
@@ -251,7 +259,8 @@ CHECKS["C15"] = dict(
          "is compared with the solver transcript and values / outcome are judged by enumeration in Coq; (2) frequencies of an "
          "otherwise unconstrained dist per entry and per value of a range against weight / total with exact two-sided binomial "
          "tails (1e-7); (3) exhaustive draw substitution into the real distselect / randselect for every weight vector up to "
-         "length 4/5 with entries 0..4/6.",
+         "length 4/5 with entries 0..4/6."
+         " Frequency cases also cover two dist statements sharing a non-random weight field and a dist inside a foreach; a listed value that never appears is judged one-sidedly.",
     note="Trusted: Coq kernel, harness, CPython's generator (modelled as a uniform draw; the uniformity inside a chosen range and "
          "the weight / total frequencies of the real call are examined statistically, not proved).",
     technique="Coq proofs (rewrite semantics, counting) + per-call transcript / enumeration correspondence + exact-tail frequency tests + exhaustive draw substitution",
@@ -262,7 +271,8 @@ CHECKS["C20"] = dict(
          "disjoint and within the rand set; for the first-solved field a drawn pattern equal to a feasible value is kept and pins "
          "that value (so with feasible = inferred range its distribution is that of the draw, whatever accompanies it). Tie: six "
          "templates randomised 360/2400 times: normal return, swizzle order in the solver transcript, histograms of the "
-         "first-solved fields against the uniform distribution (6.1 sigma), and the C01/C02 oracle on the first calls.",
+         "first-solved fields against the uniform distribution (6.1 sigma), and the C01/C02 oracle on the first calls."
+         " A ninth template holds two alternative ordering blocks of which one is switched off.",
     note=SOLVER_NOTE + "Uniformity of CPython's generator and Boolector's choice for infeasible patterns are runtime behaviours "
          "(histograms are support, not proof).",
     technique="Coq proof of ordering + pattern lemmas; transcript order check and exact-tail histograms against the real solver",
